@@ -15,20 +15,22 @@ use crate::oracle::{aux_stream, Aux, Tally, Verdict, Violation};
 /// response of the payload, with the Date masked;
 /// ONC-RPC reduced to the record that answers the first call (a segment that completes several
 /// pipelined calls may carry several replies, one record each, in any order).
-fn norm(app: App, r: &[u8], stream: &[u8]) -> Vec<u8> {
+fn norm(app: App, r: &[u8], stream: &[u8]) -> Vec<Vec<u8>> {
     if app == App::Http {
         // the first response of the payload (a segment that completes several pipelined requests
         // may carry several responses back to back)
         match http::first_response_len(r) {
-            Some(l) => http::mask_date(&r[..l]),
-            None => http::mask_date(r),
+            Some(l) => vec![http::mask_date(&r[..l])],
+            None => vec![http::mask_date(r)],
         }
     } else {
-        // the record answering the first call: the one carrying its XID (the order of the
-        // records of one payload is free), else the first record
+        // the record answering the first call: one carrying its XID (the order of the records of
+        // one payload is free, and a later call of the same payload may reuse the XID - then
+        // every such record is a candidate), else the first record
         let xid = if stream.len() >= 8 { Some(&stream[4..8]) } else { None };
         let mut at = 0;
         let mut first: Option<&[u8]> = None;
+        let mut cands: Vec<Vec<u8>> = Vec::new();
         while at + 4 <= r.len() {
             let l = (u32::from_be_bytes([r[at] & 0x7f, r[at + 1], r[at + 2], r[at + 3]]) as usize).saturating_add(4);
             if l > r.len() - at {
@@ -39,15 +41,23 @@ fn norm(app: App, r: &[u8], stream: &[u8]) -> Vec<u8> {
                 first = Some(rec);
             }
             if rec.len() >= 8 && Some(&rec[4..8]) == xid {
-                return rec.to_vec();
+                cands.push(rec.to_vec());
             }
             at += l;
         }
+        if !cands.is_empty() {
+            return cands;
+        }
         match first {
-            Some(rec) => rec.to_vec(),
-            None => r.to_vec(),
+            Some(rec) => vec![rec.to_vec()],
+            None => vec![r.to_vec()],
         }
     }
+}
+
+/// Two payloads agree on the reply to the first request when they share a candidate.
+fn same_first_reply(x: &[Vec<u8>], y: &[Vec<u8>]) -> bool {
+    x.iter().any(|c| y.contains(c))
 }
 
 pub fn check(a: &Analysis, aux: &mut Aux, t: &mut Tally) -> Vec<Violation> {
@@ -141,7 +151,7 @@ pub fn check(a: &Analysis, aux: &mut Aux, t: &mut Tally) -> Vec<Violation> {
             );
             continue;
         }
-        if a_answered && norm(app, &a_app, stream) != norm(app, &r_b, stream) {
+        if a_answered && !same_first_reply(&norm(app, &a_app, stream), &norm(app, &r_b, stream)) {
             bad("baselines-disagree", format!("baselines-content:{}", proto), first.idx, format!("reply content differs between the one-segment and the byte-wise delivery of the same {} stream", proto));
             continue;
         }
@@ -191,7 +201,7 @@ pub fn check(a: &Analysis, aux: &mut Aux, t: &mut Tally) -> Vec<Violation> {
                     ),
                     Some(k) => {
                         let own = segs_in[k].1.as_ref().unwrap();
-                        if norm(app, own, stream) != norm(app, &a_app, stream) {
+                        if !same_first_reply(&norm(app, own, stream), &norm(app, &a_app, stream)) {
                             bad("content", format!("content-depends-on-segmentation:{}", proto), a.steps[st.segs[k].si].idx, "reply content differs from the one-segment delivery of the same stream".into());
                         }
                     }
